@@ -25,6 +25,7 @@ import (
 	"github.com/influxdata/influxdb"
 	"github.com/influxdata/influxdb/logger"
 	"github.com/influxdata/influxdb/pkg/httputil"
+	"github.com/influxdata/influxdb/pkg/verifhook"
 	internal "github.com/influxdata/influxdb/services/meta/internal"
 	"github.com/influxdata/influxql"
 	"go.uber.org/zap"
@@ -778,6 +779,10 @@ func (c *Client) Authenticate(username, password string) (User, error) {
 	// Compare password with user hash.
 	if err := bcrypt.CompareHashAndPassword([]byte(userInfo.Hash), []byte(password)); err != nil {
 		return nil, ErrAuthenticate
+	}
+
+	if verifhook.Enabled {
+		verifhook.Yield("meta.authenticate.verified", username)
 	}
 
 	// generate a salt and hash of the password for the cache
